@@ -401,6 +401,8 @@ pub fn run_check(id: &str, tier: &str, seed: u64) -> i32 {
     let ft = "enumeration: canonical payments with one crash at every step and/or one write fault at every datastore write (exhaustive for the stated bound), plus random seeded hostile runs with crashes, restarts and faults; a case is one history; distinct_nontrivial = number of distinct abstract traces (sequence of (step kind, durable record, parts-status multiset, held count)) among histories in which a target rule was actually evaluated";
     match id {
         "C12" | "C18" => crate::checks_pure::run_pure_check(id, tier, seed),
+        "C15" | "C16" => run_prov_check(id, tier, seed),
+        "C20" => run_block_check(id, tier, seed),
         "C02" => fe(&[Crashy, Mixed, Reject], &["R02"], n(30_000, 1_500_000), ft),
         "C05" => fe(&[Crashy, Mixed], &["R05"], n(30_000, 1_500_000), ft),
         "C08" => fe(&[Crashy, Mixed], &["R08a", "R08c"], n(30_000, 1_500_000), ft),
@@ -493,4 +495,211 @@ pub fn dev_run(args: &Args) -> i32 {
         println!("  {k}: evals={v} ctx={}", agg.stats.contexts.get(k).map(|s| s.len()).unwrap_or(0));
     }
     0
+}
+
+pub fn run_prov_check(id: &str, tier: &str, seed: u64) -> i32 {
+    use crate::prov::*;
+    let t0 = Instant::now();
+    let thorough = tier == "thorough";
+    crate::checks_pure::silent_hook();
+    let scns = if id == "C15" { scenarios_c15(thorough) } else { scenarios_c16(thorough) };
+    let cap: u64 = if thorough { 3_000_000 } else { 150_000 };
+    let next = AtomicU64::new(0);
+    let total = Mutex::new(PStats::default());
+    let incomplete = Mutex::new(Vec::<String>::new());
+    std::thread::scope(|s| {
+        for _ in 0..threads() {
+            s.spawn(|| loop {
+                let i = next.fetch_add(1, Ordering::Relaxed) as usize;
+                if i >= scns.len() {
+                    break;
+                }
+                let mut st = PStats::default();
+                let done = explore(&scns[i], &mut st, cap);
+                if !done {
+                    incomplete.lock().unwrap().push(format!("{:?}", scns[i]));
+                }
+                total.lock().unwrap().merge(st);
+            });
+        }
+    });
+    let st = total.into_inner().unwrap();
+    let incomplete = incomplete.into_inner().unwrap();
+    // the full manager simulation asserts the same at every pay return implicitly through R02/R01b;
+    let rules: &[&str] = if id == "C15" { &["R15a", "R15b"] } else { &["R16a", "R16b"] };
+    let known = load_known();
+    let mut exit = 0;
+    let mut n_viol = 0;
+    let mut seen_known = vec![];
+    for (sig, (n, w)) in &st.violations {
+        if let Some((p, s, what)) = known.matches(id, sig) {
+            println!("KNOWN-FINDING: property={p} {s} -- {what}");
+            seen_known.push(s.clone());
+            continue;
+        }
+        n_viol += n;
+        let dir = format!("{}/replays", out_dir());
+        let _ = std::fs::create_dir_all(&dir);
+        let path = format!("{dir}/{id}-prov-{}.json", sig.replace('|', "_").replace('=', ""));
+        let _ = std::fs::write(&path, serde_json::to_string_pretty(&json!({"property": id, "engine": "prov", "signature": sig, "witness": w, "count": n})).unwrap());
+        println!("VIOLATION property={id} replay={path}");
+        eprintln!("  {sig}: {}", w.chars().take(900).collect::<String>());
+        exit = 1;
+    }
+    let missing: Vec<&&str> = rules.iter().filter(|r| st.evals.get(**r).copied().unwrap_or(0) == 0).collect();
+    if exit == 0 && !missing.is_empty() {
+        println!("INCONCLUSIVE property={id} observed nothing for {missing:?}");
+        exit = 2;
+    }
+    let distinct: u64 = st.traces.len() as u64;
+    Evidence {
+        property_id: id.into(),
+        tier: tier.into(),
+        seed,
+        level: "fault_enumeration".into(),
+        coverage: json!({
+            "evaluations": st.runs,
+            "distinct_nontrivial": distinct,
+            "rule": "depth-first enumeration of every interleaving of RPC effects (listsendpays snapshots, waitsendpay, pay) with part creations/resolutions (complete or each documented failure code) and pay outcomes, for each initial parts configuration; a case is one complete execution of the real wait_payment/pay; distinct = distinct environment step sequences",
+            "samples": st.samples,
+            "exhaustive": incomplete.is_empty(),
+            "scenarios": st.scenarios,
+            "scenarios_cut_by_run_cap": incomplete,
+            "rule_evaluations": st.evals,
+            "distinct_return_contexts": st.classes.iter().map(|(k, v)| (k.to_string(), v.len())).collect::<BTreeMap<_, _>>(),
+            "bound": if id == "C15" { "<= 3 parts (4 pending in thorough) in every initial status mix, codes 202/203/204/209 (208 when the part is unknown), one read fault in thorough" } else { "pay creating <= 2 parts (3 thorough), every outcome {complete,pending,failed,failed+warning,rpc error} at every point, every resolution order afterwards" },
+            "known_findings_matched": seen_known,
+        }),
+        assumptions: vec!["SimNode sendpay semantics (DESIGN 2.2 assumptions 1-4)".into(), "effects and replies of an RPC are fused in this engine: the interleaving that matters is RPC effect order relative to part resolutions".into()],
+        wall_s: t0.elapsed().as_secs_f64(),
+        violations: n_viol,
+    }
+    .write(&format!("{}/evidence/{id}.json", verif_dir()));
+    eprintln!("[{id}] scenarios={} executions={} distinct={} violations={} cut={} wall={:.1}s", st.scenarios, st.runs, distinct, n_viol, incomplete.len(), t0.elapsed().as_secs_f64());
+    exit
+}
+
+/// Shared verdict/evidence code for the small engines (signature -> (count, witness)).
+pub struct Simple<'a> {
+    pub id: &'a str,
+    pub tier: &'a str,
+    pub seed: u64,
+    pub level: &'a str,
+    pub engine: &'a str,
+    pub evaluations: u64,
+    pub distinct: u64,
+    pub evals: BTreeMap<String, u64>,
+    pub classes: BTreeMap<String, u64>,
+    pub violations: BTreeMap<String, (u64, String)>,
+    pub samples: Vec<Value>,
+    pub rules: Vec<&'a str>,
+    pub rule_text: &'a str,
+    pub extra: Value,
+    pub assumptions: Vec<String>,
+    pub inconclusive: Vec<String>,
+    pub exhaustive: Option<bool>,
+}
+
+pub fn conclude_simple(s: Simple, t0: Instant) -> i32 {
+    let known = load_known();
+    let mut exit = 0;
+    let mut n_viol = 0;
+    let mut seen_known = vec![];
+    for (sig, (n, w)) in &s.violations {
+        if let Some((p, k, what)) = known.matches(s.id, sig) {
+            println!("KNOWN-FINDING: property={p} {k} -- {what}");
+            seen_known.push(k.clone());
+            continue;
+        }
+        n_viol += n;
+        let dir = format!("{}/replays", out_dir());
+        let _ = std::fs::create_dir_all(&dir);
+        let path = format!("{dir}/{}-{}-{}.json", s.id, s.engine, sig.replace('|', "_").replace('=', "").replace('/', "_").chars().take(80).collect::<String>());
+        let _ = std::fs::write(&path, serde_json::to_string_pretty(&json!({"property": s.id, "engine": s.engine, "signature": sig, "witness": w, "count": n, "seed": s.seed, "tier": s.tier})).unwrap());
+        println!("VIOLATION property={} replay={path}", s.id);
+        eprintln!("  {sig}: {}", w.chars().take(1200).collect::<String>());
+        exit = 1;
+    }
+    let missing: Vec<&&str> = s.rules.iter().filter(|r| s.evals.get(**r).copied().unwrap_or(0) == 0).collect();
+    if exit == 0 && (!missing.is_empty() || !s.inconclusive.is_empty()) {
+        println!("INCONCLUSIVE property={} missing={missing:?} {:?}", s.id, s.inconclusive);
+        exit = 2;
+    }
+    let mut cov = json!({
+        "evaluations": s.evaluations,
+        "distinct_nontrivial": s.distinct,
+        "rule": s.rule_text,
+        "samples": s.samples,
+        "rule_evaluations": s.evals,
+        "distinct_classes": s.classes,
+        "inconclusive": s.inconclusive,
+        "known_findings_matched": seen_known,
+    });
+    if let Some(e) = s.exhaustive {
+        cov["exhaustive"] = json!(e);
+    }
+    if let Value::Object(m) = s.extra {
+        for (k, v) in m {
+            cov[k] = v;
+        }
+    }
+    Evidence { property_id: s.id.into(), tier: s.tier.into(), seed: s.seed, level: s.level.into(), coverage: cov, assumptions: s.assumptions, wall_s: t0.elapsed().as_secs_f64(), violations: n_viol }.write(&format!("{}/evidence/{}.json", verif_dir(), s.id));
+    eprintln!("[{}] evaluations={} distinct={} violations={} wall={:.1}s", s.id, s.evaluations, s.distinct, n_viol, t0.elapsed().as_secs_f64());
+    exit
+}
+
+pub fn run_block_check(id: &str, tier: &str, seed: u64) -> i32 {
+    use crate::blocksim::*;
+    let t0 = Instant::now();
+    let thorough = tier == "thorough";
+    crate::checks_pure::silent_hook();
+    let runs: u64 = if thorough { 600_000 } else { 30_000 };
+    let next = AtomicU64::new(0);
+    let total = Mutex::new(BStats::default());
+    let base = mix(seed, hash_str("C20"));
+    std::thread::scope(|s| {
+        for _ in 0..threads() {
+            s.spawn(|| {
+                let mut st = BStats::default();
+                loop {
+                    let i = next.fetch_add(1, Ordering::Relaxed);
+                    if i >= runs {
+                        break;
+                    }
+                    run_block(mix(base, i), thorough || i % 2 == 0, &mut st);
+                }
+                total.lock().unwrap().merge(st);
+            });
+        }
+    });
+    let st = total.into_inner().unwrap();
+    // passive R20a evaluations inside the manager simulation as well
+    let agg = campaign("C20", &["R20a"], seed, thorough, &[Profile::Expiry, Profile::Mixed], if thorough { 200_000 } else { 8_000 }, 600);
+    let mut violations = st.violations.clone();
+    for (rs, prof, v) in &agg.violations {
+        let e = violations.entry(v.signature.clone()).or_insert((0, format!("manager simulation seed {rs} profile {prof}: {}", v.detail)));
+        e.0 += 1;
+    }
+    conclude_simple(
+        Simple {
+            id,
+            tier,
+            seed,
+            level: "exploration",
+            engine: "block",
+            evaluations: st.runs + agg.runs,
+            distinct: st.traces.len() as u64,
+            evals: st.evals.iter().map(|(k, v)| (k.to_string(), *v)).collect(),
+            classes: st.classes.iter().map(|(k, v)| (k.to_string(), v.len() as u64)).collect(),
+            violations,
+            samples: st.samples.iter().map(|s| json!(s)).collect(),
+            rules: vec!["R20a", "R20b"],
+            rule_text: "random seeded schedules against the real BlockWatcher: getinfo polls answered with fresh or stale snapshots, late, or failing; block_added delivered, lost, delayed, duplicated, reordered, stale or zero; time jumps; then a calm phase (height stable, notifications lost, polls answered at once) of one poll interval; a case is one schedule; distinct = distinct sequences of (step kind, outstanding polls, delayed notifications, behind-or-not)",
+            extra: json!({"block_level_runs": st.runs, "environment_events": st.steps, "manager_level_runs_with_passive_R20a": agg.runs, "manager_level_R20a_evaluations": agg.stats.evals.get("R20a").copied().unwrap_or(0)}),
+            assumptions: vec!["getinfo replies carry the height at the instant the node evaluated the call (snapshot), delivery may be late".into(), "the first poll (plugin start-up) succeeds; a failing first poll makes the real main() exit, which is outside C20".into()],
+            inconclusive: vec![],
+            exhaustive: None,
+        },
+        t0,
+    )
 }
